@@ -4,13 +4,82 @@
 
 package serveruser
 
-//@ // tryState is not yet verified: only its effect on the ghost flag is stated (a
-//@ // discovery attempt invalidates any earlier currency check of the generation).
+//@ // Candidate order (C07). For every generation, metadata, source, cache content
+//@ // (whatever lookup returns) and hint-mandatory setting:
+//@ //  - a result names a user of this generation whose decryptor opens the metadata,
+//@ //    and with mandatory hints one whose name the hint selects;
+//@ //  - a user the hint does not select is returned only if no hint-selected user's
+//@ //    credential opens the metadata (hint preference);
+//@ //  - no result means that no eligible user's credential opens it.
+//@ // Nothing in these clauses mentions the cache or the source: when credentials are
+//@ // distinct (at most one user opens the metadata) they determine accept/reject and
+//@ // the attributed user uniquely.
 //@ func tryState(state *state, encryptedMeta []byte, source Source, hintMandatory bool) (r discoveryResult)
-//@   trusted candidate-order proof (cache independence, hint preference) is future work; see DESIGN.md C07
-//@   modifies ghost(recheck), ghost(added)
-//@   modifies state.cache.stats.* when state != nil && state.cache != nil && state.cache.stats != nil
+//@   property C07
+//@   mode int
+//@   noframe
+//@   preserves PacketUnderlay.*, StreamUnderlay.*, ghost(wr), ghost(dsent), user.id, user.name, user.decryptor, state.users
+//@   requires wfUsers(state) && len(encryptedMeta) >= 24
+//@   sets ghost(recheck) = 0
+//@   modifies ghost(recheck)
 //@   ensures ghost(recheck) == 0
+//@   ensures r.block != nil ==> 1 <= int(r.userID) && int(r.userID) <= len(state.users) && authAt(state, int(r.userID) - 1, encryptedMeta) && (hintMandatory ==> hintAt(state, int(r.userID) - 1, encryptedMeta))
+//@   ensures r.block != nil ==> r.userContext.UserName == state.users[int(r.userID) - 1].name
+//@   ensures r.block != nil && !hintAt(state, int(r.userID) - 1, encryptedMeta) ==> forall(j, 0, len(state.users), hintAt(state, j, encryptedMeta) ==> !authAt(state, j, encryptedMeta))
+//@   ensures r.block == nil ==> forall(j, 0, len(state.users), (hintAt(state, j, encryptedMeta) || !hintMandatory) ==> !authAt(state, j, encryptedMeta))
+//@   loop 1:
+//@     invariant 0 <= i && i <= cachedCount && 0 <= attemptedCachedCount && attemptedCachedCount <= 16 && 0 <= cachedCount && cachedCount <= 16 && 0 <= attempts && attempts <= i
+//@     invariant forall(k, 0, attemptedCachedCount, 1 <= int(attemptedCachedIDs[k]) && int(attemptedCachedIDs[k]) <= len(state.users) && !authAt(state, int(attemptedCachedIDs[k]) - 1, encryptedMeta))
+//@   loop 2:
+//@     invariant -1 <= rangeindex && rangeindex < len(state.users) && 0 <= attemptedCachedCount && attemptedCachedCount <= 16 && 0 <= cachedCount && cachedCount <= 16 && 0 <= attempts && attempts <= 16 + rangeindex + 1
+//@     invariant forall(k, 0, attemptedCachedCount, 1 <= int(attemptedCachedIDs[k]) && int(attemptedCachedIDs[k]) <= len(state.users) && !authAt(state, int(attemptedCachedIDs[k]) - 1, encryptedMeta))
+//@     invariant forall(j, 0, rangeindex + 1, hintAt(state, j, encryptedMeta) ==> !authAt(state, j, encryptedMeta))
+//@   loop 3:
+//@     invariant 0 <= i__3 && i__3 <= cachedCount && 0 <= attemptedCachedCount && attemptedCachedCount <= 16 && 0 <= cachedCount && cachedCount <= 16 && 0 <= attempts && attempts <= 16 + len(state.users) + i__3 && !hintMandatory
+//@     invariant forall(k, 0, attemptedCachedCount, 1 <= int(attemptedCachedIDs[k]) && int(attemptedCachedIDs[k]) <= len(state.users) && !authAt(state, int(attemptedCachedIDs[k]) - 1, encryptedMeta))
+//@     invariant forall(j, 0, len(state.users), hintAt(state, j, encryptedMeta) ==> !authAt(state, j, encryptedMeta))
+//@   loop 4:
+//@     invariant -1 <= rangeindex__2 && rangeindex__2 < len(state.users) && 0 <= attemptedCachedCount && attemptedCachedCount <= 16 && 0 <= attempts && attempts <= 32 + len(state.users) + rangeindex__2 + 1 && !hintMandatory
+//@     invariant forall(k, 0, attemptedCachedCount, 1 <= int(attemptedCachedIDs[k]) && int(attemptedCachedIDs[k]) <= len(state.users) && !authAt(state, int(attemptedCachedIDs[k]) - 1, encryptedMeta))
+//@     invariant forall(j, 0, len(state.users), hintAt(state, j, encryptedMeta) ==> !authAt(state, j, encryptedMeta))
+//@     invariant forall(j, 0, rangeindex__2 + 1, !authAt(state, j, encryptedMeta))
+//@
+//@ func userIDWasAttempted(attempted *[sourceUserCacheUsers]uint32, count int, userID uint32) (r bool)
+//@   property C07
+//@   mode int
+//@   requires attempted != nil && 0 <= count && count <= 16
+//@   ensures r <==> exists(k, 0, count, attempted[k] == userID)
+//@   loop 1:
+//@     invariant 0 <= i && i <= count
+//@     invariant forall(k, 0, i, attempted[k] != userID)
+//@
+//@ func markUserIDAttempted(attempted *[sourceUserCacheUsers]uint32, count int, userID uint32) (r int)
+//@   property C07
+//@   mode int
+//@   requires attempted != nil && 0 <= count && count <= 16
+//@   modifies attempted[..]
+//@   ensures (r == count || r == count + 1) && r <= 16
+//@   ensures forall(k, 0, count, attempted[k] == old(attempted[k]))
+//@   ensures r == count + 1 ==> attempted[count] == userID
+//@   ensures r == count ==> attempted[count % 16] == old(attempted[count % 16])
+//@
+//@ // One trial: succeeds exactly when the user's decryptor opens the metadata, and
+//@ // then carries that user's id, name and policy.
+//@ func tryUser(user *user, encryptedMeta []byte, dst []byte, hintMatch bool, origin matchOrigin) (r discoveryResult)
+//@   property C07
+//@   mode int
+//@   requires user != nil && user.decryptor != nil
+//@   modifies dst[0:cap(dst)], ghost(added), user.decryptor.*
+//@   ensures (r.block != nil) <==> authOK(user.decryptor, contentOf(encryptedMeta))
+//@   ensures r.block != nil ==> r.userID == user.id && r.userContext.UserName == user.name && r.origin == origin
+//@
+//@ // The cache is consulted for an order of candidates only; what it returns is
+//@ // arbitrary here (that is the point of the clauses above).
+//@ func (c *sourceUserCache) lookup(key [16]byte) (ids [sourceUserCacheUsers]uint32, n int)
+//@   trusted bounded result count (16 slots); contents deliberately unconstrained
+//@   modifies ghost(added)
+//@   modifies c.stats.* when c != nil && c.stats != nil
+//@   ensures 0 <= n && n <= 16
 //@
 //@ // Reload safety (C07): the publisher may be replaced by SetUsers at any moment
 //@ // (every read of it returns an arbitrary value). With requireCurrent, a successful
@@ -22,10 +91,18 @@ package serveruser
 //@   mode int
 //@   noframe
 //@   preserves PacketUnderlay.*, StreamUnderlay.*, ghost(wr), ghost(dsent)
-//@   requires afterAttempt == nil
+//@   requires afterAttempt == nil && len(encryptedMetadata) >= 24
+//@   // every generation ever published was built by buildState (ids are positions + 1,
+//@   // decryptors present, names within the hint function's domain): assumed, see DESIGN 12.4
+//@   volatile_inv v == nil || wfUsers(v)
 //@   volatile Pointer_sync_atomic.Pointer[github.com_enfein_mieru_v3_pkg_protocol_serveruser.state].v, .v
 //@   ensures err == nil ==> result.block != nil && result.generation != nil
 //@   ensures err == nil && requireCurrent ==> ghost(recheck) == 1 && mathint(result.generation) == ghost(lastload)
+//@   // attribution: the result names a user of the returned generation whose credential
+//@   // opens the metadata; a user the hint does not select only if no selected one does
+//@   ensures err == nil ==> 1 <= int(result.userID) && int(result.userID) <= len(result.generation.users) && authAt(result.generation, int(result.userID) - 1, encryptedMetadata)
+//@   ensures err == nil ==> result.userContext.UserName == result.generation.users[int(result.userID) - 1].name
+//@   ensures err == nil && !hintAt(result.generation, int(result.userID) - 1, encryptedMetadata) ==> forall(j, 0, len(result.generation.users), hintAt(result.generation, j, encryptedMetadata) ==> !authAt(result.generation, j, encryptedMetadata))
 //@   loop 1:
 //@     invariant true
 //@
@@ -34,7 +111,7 @@ package serveruser
 //@   mode int
 //@   noframe
 //@   preserves PacketUnderlay.*, StreamUnderlay.*, ghost(wr), ghost(dsent)
-//@   requires r != nil
+//@   requires r != nil && len(encryptedMetadata) >= 24
 //@   ensures err == nil ==> b != nil
 //@
 //@ func SourceFromAddr(addr net.Addr) (s Source)
